@@ -3,6 +3,7 @@ package main
 import (
 	"fmt"
 	"go/types"
+	"os"
 	"regexp"
 	"sort"
 	"strings"
@@ -601,7 +602,216 @@ func (ex *Exec) readElem(st *State, s *SliceVal, i *Term) Value {
 	return r
 }
 
-// appendBuiltin: append(s, t...) always produces a fresh backing array (capacity reuse is not modelled).
+// appendInPlace models the case in which Go's append is CERTAIN to write into the backing array of its first
+// argument: a slice of a concrete array whose end plus the number of appended elements stays within the
+// array's extent (cap >= extent - offset, so no reallocation can happen). The appended elements are read first
+// (memmove semantics), then stored behind the slice's end; every other holder of the array sees the change.
+// Returns nil when reallocation cannot be excluded for some feasible alternative (then the fresh-array model
+// below is used, which under-approximates aliasing).
+func (ex *Exec) appendInPlace(st *State, s, t *SliceVal) *SliceVal {
+	if !ex.inPlaceAppend || os.Getenv("GOVC_NO_INPLACE_APPEND") != "" {
+		appendWhy(1)
+		return nil
+	}
+	type pair struct {
+		c           *Term
+		o           *Obj
+		off, n1, n2 int64
+		elems       []Value
+	}
+	var pairs []pair
+	for _, as := range s.Alts {
+		if And(st.pc, as.C) == TFalse {
+			continue
+		}
+		if as.O == nil || as.O.kind != OConcArr {
+			appendWhy(2)
+			return nil
+		}
+		offs, lens := intCases(as.Off), intCases(as.Len)
+		if offs == nil || lens == nil {
+			if os.Getenv("GOVC_DEBUG_APPEND") != "" && appendWhyCount[3] < 3 {
+				fmt.Fprintln(os.Stderr, "appendInPlace kind 3: off=", truncate(as.Off.String(), 300), " len=", truncate(as.Len.String(), 600))
+			}
+			appendWhy(3)
+			return nil
+		}
+		av, ok := ex.heapGet(st, as.O).(*ArrVal)
+		if !ok {
+			appendWhy(4)
+			return nil
+		}
+		for _, at := range t.Alts {
+			tl := []intCase{{TTrue, 0}}
+			if at.O != nil {
+				if tl = intCases(at.Len); tl == nil {
+					appendWhy(5)
+					return nil
+				}
+			}
+			for _, oc := range offs {
+				for _, lc := range lens {
+					for _, tc := range tl {
+						c := And(as.C, at.C, oc.c, lc.c, tc.c)
+						if And(st.pc, c) == TFalse {
+							continue
+						}
+						off, n1, n2 := oc.v, lc.v, tc.v
+						if off < 0 || n1 < 0 || n2 < 0 {
+							continue // excluded by the bounds checks of the slice expressions
+						}
+						if off+n1+n2 > int64(len(av.E)) {
+							if !ex.feasible(And(st.pc, c)) {
+								continue // a combination of cases that cannot occur together
+							}
+							appendWhy(6)
+							return nil
+						}
+						p := pair{c: c, o: as.O, off: off, n1: n1, n2: n2}
+						one := &SliceVal{Elem: t.Elem, Alts: []SliceAlt{{C: TTrue, O: at.O, Off: at.Off, Len: IntLit(n2)}}}
+						for j := int64(0); j < n2; j++ {
+							p.elems = append(p.elems, ex.readElem(st, one, IntLit(j)))
+						}
+						pairs = append(pairs, p)
+					}
+				}
+			}
+		}
+	}
+	if len(pairs) == 0 {
+		appendWhy(7)
+		return nil
+	}
+	res := &SliceVal{Elem: s.Elem}
+	for _, p := range pairs {
+		if p.n2 > 0 {
+			old := ex.heapGet(st, p.o).(*ArrVal)
+			nv := &ArrVal{E: append([]Value(nil), old.E...)}
+			for j := range p.elems {
+				k := p.off + p.n1 + int64(j)
+				nv.E[k] = ex.merge(p.c, p.elems[j], old.E[k])
+			}
+			st.heap[p.o] = nv
+		}
+		merged := false
+		for i := range res.Alts {
+			a := &res.Alts[i]
+			if a.O == p.o && a.Off == IntLit(p.off) && a.Len == IntLit(p.n1+p.n2) {
+				a.C = Or(a.C, p.c)
+				merged = true
+				break
+			}
+		}
+		if !merged {
+			res.Alts = append(res.Alts, SliceAlt{C: p.c, O: p.o, Off: IntLit(p.off), Len: IntLit(p.n1 + p.n2)})
+		}
+	}
+	return res
+}
+
+type intCase struct {
+	c *Term
+	v int64
+}
+
+// intCases enumerates the values of a term that is a tree of ite nodes over integer literals (nil otherwise),
+// one case per distinct value.
+func intCases(t *Term) []intCase {
+	memo := map[*Term][]intCase{}
+	bad := false
+	var walk func(t *Term) []intCase
+	walk = func(t *Term) []intCase {
+		if r, ok := memo[t]; ok {
+			return r
+		}
+		var r []intCase
+		if v, ok := t.IntVal(); ok {
+			r = []intCase{{TTrue, v}}
+		} else if t.Op == "ite" {
+			a, b := walk(t.Args[1]), walk(t.Args[2])
+			if bad {
+				return nil
+			}
+			idx := map[int64]int{}
+			add := func(c *Term, v int64) {
+				if k, ok := idx[v]; ok {
+					r[k].c = Or(r[k].c, c)
+				} else {
+					idx[v] = len(r)
+					r = append(r, intCase{c, v})
+				}
+			}
+			for _, x := range a {
+				add(And(t.Args[0], x.c), x.v)
+			}
+			for _, x := range b {
+				add(And(Not(t.Args[0]), x.c), x.v)
+			}
+			if len(r) > 32 {
+				bad = true
+			}
+		} else if (t.Op == "+" || t.Op == "-") && len(t.Args) >= 1 {
+			r = walk(t.Args[0])
+			if t.Op == "-" && len(t.Args) == 1 {
+				for i := range r {
+					r[i].v = -r[i].v
+				}
+			}
+			for _, arg := range t.Args[1:] {
+				b := walk(arg)
+				if bad {
+					return nil
+				}
+				var nr []intCase
+				idx := map[int64]int{}
+				for _, x := range r {
+					for _, y := range b {
+						v := x.v + y.v
+						if t.Op == "-" {
+							v = x.v - y.v
+						}
+						c := And(x.c, y.c)
+						if c == TFalse {
+							continue
+						}
+						if k, ok := idx[v]; ok {
+							nr[k].c = Or(nr[k].c, c)
+						} else {
+							idx[v] = len(nr)
+							nr = append(nr, intCase{c, v})
+						}
+					}
+				}
+				r = nr
+				if len(r) > 32 {
+					bad = true
+				}
+			}
+		} else {
+			bad = true
+		}
+		memo[t] = r
+		return r
+	}
+	r := walk(t)
+	if bad {
+		return nil
+	}
+	return r
+}
+
+var appendWhyCount = map[int]int{}
+
+func appendWhy(k int) {
+	if os.Getenv("GOVC_DEBUG_APPEND") != "" {
+		appendWhyCount[k]++
+		if appendWhyCount[k] == 1 {
+			fmt.Fprintln(os.Stderr, "appendInPlace: first fallback of kind", k)
+		}
+	}
+}
+
+// appendBuiltin: append(s, t...) produces a fresh backing array unless appendInPlace applies.
 func (ex *Exec) appendBuiltin(st *State, args []Value, x *ssa.Call) Value {
 	if a, ok := args[0].(*Term); ok && a.S == SBytes {
 		switch b := args[1].(type) {
@@ -654,6 +864,9 @@ func (ex *Exec) appendBuiltin(st *State, args []Value, x *ssa.Call) Value {
 			}
 			ex.writes = append(ex.writes, WriteRec{C: And(st.pc, al.C), O: al.O, Pos: ex.pos(x.Pos()) + " (append into a backing array it does not own)", Fn: fn})
 		}
+	}
+	if r := ex.appendInPlace(st, s, t); r != nil {
+		return r
 	}
 	total := Add(l1, l2)
 	n1, c1 := l1.IntVal()
